@@ -25,19 +25,6 @@ which resets the counter, is outside the quantifier), `HistOk`, and `HistWF` whe
 namespace Cppcms.C10.Props
 open Cppcms Cppcms.C07 Cppcms.C10
 
-/-- sizes of every operation of the history fit the header fields -/
-def HistOk (ops : List Op) : Prop := ∀ op ∈ ops, OpOk op
-
-theorem histOk_prefix {pre ops : List Op} (hp : pre <+: ops) (h : HistOk ops) : HistOk pre :=
-  fun op ho => h op (hp.subset ho)
-
-theorem run_init_eq (sl : List Nat) (ll : List (Option Nat)) (ops : List Op) (hok : HistOk ops) :
-    run (Cluster.init sl ll) ops = arun (Cluster.init sl ll) ops ∧ AllSmall (arun (Cluster.init sl ll) ops) :=
-  run_eq_arun (fresh_init sl ll).invs (allSmall_fresh (fresh_init sl ll)) ops hok
-
-theorem init_length (sl : List Nat) (ll : List (Option Nat)) : (Cluster.init sl ll).servers.length = sl.length := by
-  simp [Cluster.init]
-
 /-! ## keys are spread over the servers consistently -/
 
 /-- The server of a key is `shard n k` — a function of the number of servers and the key alone
